@@ -265,6 +265,9 @@ type c04World struct {
 	lastFail map[int]*c04BoCall
 	notAfter time.Time // set while events are fired into a back-off: the earliest moment that back-off can end
 	running  map[int]*c04Running
+	// onExec (optional, set by other suites that reuse this world): called for every hook execution
+	// once the hook has started, with the queue at handler entry and the queue now
+	onExec func(qn, id int, pre, now []c04Snap, run *c04Running)
 }
 
 func (w *c04World) snap(x task.Task) c04Snap {
@@ -691,6 +694,9 @@ func (w *c04World) begin(qn int) string {
 		gap = ent.at.Sub(lf.at).Nanoseconds()
 	}
 	w.c.Oracle(fmt.Sprintf("begin q=%d task=%d gap=%d ctxs=%s", qn, id, gap, w.hookCtxs(run.start.ctxs)))
+	if w.onExec != nil {
+		w.onExec(qn, id, ent.pre, now, run)
+	}
 	if strings.Contains(head.ctxs, ":0:") {
 		w.c.Note("begin:synchronization-run")
 		if head.group == "" && head.bt == htypes.OnKubernetesEvent && strings.Contains(strings.SplitN(head.ctxs, ";", 2)[0], ":0:") {
@@ -840,6 +846,7 @@ type c04Plan struct {
 	boArrivals func(qn int, step int) []c04Ev             // events fired right after a failed run, i.e. during its back-off
 	initial    map[int][]c04Ev                            // per queue: first layout (the rest arrives while the first run is blocked)
 	maxSteps   int
+	onExec     func(w *c04World, qn, id int, pre, now []c04Snap, run *c04Running) // see c04World.onExec
 }
 
 func (w *c04World) fire(p c04Plan, e c04Ev) bool {
@@ -857,6 +864,9 @@ func c04Execute(c *Case, r *Run, p c04Plan) {
 		return
 	}
 	defer w.close()
+	if p.onExec != nil {
+		w.onExec = func(qn, id int, pre, now []c04Snap, run *c04Running) { p.onExec(w, qn, id, pre, now, run) }
+	}
 	bi := p.boInit
 	if bi == 0 {
 		bi = queue.DefaultInitialDelayOnFailedTask
